@@ -74,7 +74,7 @@ def plan(seed, subbatch):
     fired["placed_on_" + where] += 1
     fired["tz_switch_ops"] += switches
     return {"format": 1, "property": ID, "seed": seed, "subbatch": subbatch,
-            "config": {"route": route, "tf": tf, "base_s": base_s},
+            "config": {"route": route, "tf": tf, "base_s": base_s, "fill": cfg.random() < 0.5},
             "ops": [{"op": "new", "preload": pre}] + ops, "fired": dict(fired)}
 
 
@@ -95,7 +95,9 @@ def _run_under(run, trace, zone, count_budget):
                 if kind == "new":
                     rows = op.get("preload") or []
                     delivered.extend(rows)
-                    subject, _m, view = run.call(len(rows) * 2, build_route, route, tf, rows)
+                    span_n = (rows[-1][0] - rows[0][0]) // tf_seconds(tf) if rows else 0
+                    subject, _m, view = run.call(len(rows) * 2 + span_n, build_route, route, tf, rows,
+                                                 bool(cfg.get("fill")))
                     if route != "manager":
                         run.call(len(rows) * 2, subject.calculate)
                 elif subject is None:
@@ -107,7 +109,8 @@ def _run_under(run, trace, zone, count_budget):
                         out.append(None)
                         continue
                     delivered.extend(rows)
-                    run.call(len(delivered) * 2, subject.append, mk_candles(rows))
+                    span_n = (delivered[-1][0] - delivered[0][0]) // tf_seconds(tf)
+                    run.call(len(delivered) * 2 + span_n, subject.append, mk_candles(rows))
                 elif kind == "tz":
                     current = "UTC" if current == zone else zone
                     _set_tz(current)
@@ -151,7 +154,7 @@ def execute(trace, ctx=None):
                                     {"zone": zone, "index": j, "zone_candle": a, "utc_candle": b,
                                      "tf": trace["config"]["tf"]})
             run.stats["zone_runs"] += 1
-        run.state(trace["config"]["tf"], route, min(len(snaps[-1]), 3))
+        run.state(trace["config"]["tf"], route, min(len(snaps[-1]), 3), bool(trace["config"].get("fill")))
         run.nontrivial = len(snaps[-1]) >= 2 and (n_appends >= 2 or planlib.feed_fired(trace.get("fired")))
     try:
         return run_property(ID, body, trace)
